@@ -3,6 +3,8 @@ CONSTANTS
   Ts = {2}
   NCalls = 3
   NWakers = 2
+  CompleteTh = {0, 1, 2, 3, 4}
+  FailTh = {0, 1, 2, 3, 4}
   LateSlack = 1
   WithPollPending = TRUE
   TimeoutAfterErrorOnly = FALSE
